@@ -86,6 +86,106 @@ func init() {
 			return err.T != nil && err.V == ne.V
 		},
 		"os.TempDir": func(fr *Frame, a []Value) Value { return "/tmp" },
+		"os.IsExist": func(fr *Frame, a []Value) Value {
+			err := a[0].(Iface)
+			ee := fr.it.env.errExist()
+			return err.T != nil && err.V == ee.V
+		},
+		"errors.Is": func(fr *Frame, a []Value) Value {
+			// identity, then Unwrap chains (interpreted); enough for sentinel errors
+			err, target := a[0].(Iface), a[1].(Iface)
+			for i := 0; i < 8 && err.T != nil; i++ {
+				if target.T != nil && types.Identical(err.T, target.T) && err.V == target.V {
+					return true
+				}
+				ms := fr.it.P.Prog.MethodSets.MethodSet(err.T)
+				sel := ms.Lookup(nil, "Unwrap")
+				if sel == nil {
+					return false
+				}
+				fn := fr.it.P.Prog.MethodValue(sel)
+				if fn == nil || fn.Signature.Results().Len() != 1 {
+					return false
+				}
+				r, ok := call(fr.it, fr, 0, fn, []Value{err.V}).(Iface)
+				if !ok {
+					return false
+				}
+				err = r
+			}
+			return false
+		},
+		"os.Create": func(fr *Frame, a []Value) Value {
+			return fr.it.env.openFile(concStr(a[0], "os.Create"), oRDWR|oCREATE|oTRUNC)
+		},
+		"os.Open": func(fr *Frame, a []Value) Value {
+			return fr.it.env.openFile(concStr(a[0], "os.Open"), oRDONLY)
+		},
+		"os.Lstat": func(fr *Frame, a []Value) Value { return fr.it.env.stat(concStr(a[0], "os.Lstat")) },
+		"os.Mkdir": func(fr *Frame, a []Value) Value {
+			e := fr.it.env
+			p := clean(concStr(a[0], "os.Mkdir"))
+			if _, ok := e.nodes[p]; ok {
+				return e.errExist()
+			}
+			if !e.parentExists(p) {
+				return e.errNotExist()
+			}
+			return e.mkdirAll(p)
+		},
+		"os.Truncate": func(fr *Frame, a []Value) Value {
+			e := fr.it.env
+			p := clean(concStr(a[0], "os.Truncate"))
+			n, ok := e.nodes[p]
+			if !ok || n.isDir {
+				return e.errNotExist()
+			}
+			sz := int(fr.it.concInt(a[1], "os.Truncate size"))
+			e.beforeMutation(fmt.Sprintf("truncate %s to %d", p, sz))
+			n.file.truncate(e, sz)
+			e.log(FSOp{Kind: "truncate", Path: p, N: sz})
+			return Iface{}
+		},
+		"(*os.File).Name": func(fr *Frame, a []Value) Value { return fr.it.env.fileOf(a[0]).path },
+		"(*os.File).WriteAt": func(fr *Frame, a []Value) Value {
+			e := fr.it.env
+			of := e.fileOf(a[0])
+			if of.app {
+				return Tuple{uint64(0), e.errVal("os: invalid use of WriteAt on file opened with O_APPEND")}
+			}
+			off := int(fr.it.concInt(a[2], "WriteAt offset"))
+			save := of.pos
+			of.pos = off
+			r := e.write(of, a[1].([]Value))
+			of.pos = save
+			return r
+		},
+		"(*os.File).Read": func(fr *Frame, a []Value) Value {
+			e := fr.it.env
+			of := e.fileOf(a[0])
+			b := a[1].([]Value)
+			r := e.readAt(of, b, int64(of.pos)).(Tuple)
+			n := int(r[0].(uint64))
+			of.pos += n
+			if n == 0 && len(b) > 0 {
+				return Tuple{uint64(0), fr.it.ioEOF()}
+			}
+			return Tuple{uint64(n), Iface{}}
+		},
+		"(*os.File).Seek": func(fr *Frame, a []Value) Value {
+			e := fr.it.env
+			of := e.fileOf(a[0])
+			off := int(fr.it.concInt(a[1], "Seek offset"))
+			switch int(a[2].(uint64)) {
+			case 0:
+				of.pos = off
+			case 1:
+				of.pos += off
+			case 2:
+				of.pos = of.node.file.size + off
+			}
+			return Tuple{uint64(of.pos), Iface{}}
+		},
 		"(*os.File).Write": func(fr *Frame, a []Value) Value {
 			e := fr.it.env
 			return e.write(e.fileOf(a[0]), a[1].([]Value))
